@@ -268,7 +268,6 @@ func (g G) WitnessTree(rule string, alt int, ma map[string]int, par map[string]O
 	return cur
 }
 
-
 // Occurrences lists every place (rule, alternative, position) where sym is
 // referenced.
 func (g G) Occurrences(sym string) []Occ {
